@@ -621,41 +621,41 @@ theorem getDouble_eval (ctx : Ctx) (s : PState) (t : PTok) (h : e.toks[s.pos]? =
 /-! ### the fallback -/
 
 structure AllU (F : Prop) (c : Cfg e) (fuel : Nat) : Prop where
-  u : ∀ lo lg ctx isB acc s, (c.PB → lo ≤ s.pos ∧ s.pos ≤ e.toks.size) →
+  u : ∀ lo lg ctx isB dp acc s, (c.PB → lo ≤ s.pos ∧ s.pos ≤ e.toks.size) →
     (c.PB → F → 3 * (e.toks.size - s.pos) + 3 ≤ fuel) → c.L lg s.log →
-    Good F c lo lg (unknownIfdata fuel ctx isB acc e s) T
-  ts : ∀ lo lg ctx s, (c.PB → lo ≤ s.pos ∧ s.pos ≤ e.toks.size) →
+    Good F c lo lg (unknownIfdata fuel ctx isB dp acc e s) T
+  ts : ∀ lo lg ctx dp s, (c.PB → lo ≤ s.pos ∧ s.pos ≤ e.toks.size) →
     (c.PB → F → 3 * (e.toks.size - s.pos) + 2 ≤ fuel) → c.L lg s.log →
-    Good F c lo lg (unknownTaggedstruct fuel ctx e s)
+    Good F c lo lg (unknownTaggedstruct fuel ctx dp e s)
       (fun _ s' => c.PB → ∀ t, e.toks[s'.pos]? = some t → t.ty ≠ 1)
-  l : ∀ lo lg ctx acc s, (c.PB → lo ≤ s.pos ∧ s.pos ≤ e.toks.size) →
+  l : ∀ lo lg ctx dp acc s, (c.PB → lo ≤ s.pos ∧ s.pos ≤ e.toks.size) →
     (c.PB → F → 3 * (e.toks.size - s.pos) + 1 ≤ fuel) → c.L lg s.log →
-    Good F c lo lg (unknownTsLoop fuel ctx acc e s) T
+    Good F c lo lg (unknownTsLoop fuel ctx dp acc e s) T
 
 theorem allU_zero (c : Cfg e) : AllU F c 0 := by
   constructor
-  · intro lo lg ctx isB acc s _ hf _
+  · intro lo lg ctx isB dp acc s _ hf _
     rw [unknownIfdata.eq_def]
     exact ⟨trivial, fun hpb hF => by have := hf hpb hF; omega⟩
-  · intro lo lg ctx s _ hf _
+  · intro lo lg ctx dp s _ hf _
     rw [unknownTaggedstruct.eq_def]
     exact ⟨trivial, fun hpb hF => by have := hf hpb hF; omega⟩
-  · intro lo lg ctx acc s _ hf _
+  · intro lo lg ctx dp acc s _ hf _
     rw [unknownTsLoop.eq_def]
     exact ⟨trivial, fun hpb hF => by have := hf hpb hF; omega⟩
 
 /-- a scalar of the fallback: read, `get_line_offset`, continue the loop -/
 theorem u_scalar {α} (c : Cfg e) {fuel : Nat} (ih : AllU F c fuel) {lo : Nat} {lg : List Diag} {m : PM α}
-    {g : α → Nat → Gen} {ctx : Ctx} {isB : Bool} {acc : List Gen} {s : PState}
+    {g : α → Nat → Gen} {ctx : Ctx} {isB : Bool} {dp : Nat} {acc : List Gen} {s : PState}
     (hp : c.PB → lo ≤ s.pos ∧ s.pos ≤ e.toks.size) (hf : c.PB → F → 3 * (e.toks.size - s.pos) + 3 ≤ fuel + 1)
     (hl : c.L lg s.log)
     (h : Good F c s.pos s.log (m e s) (fun _ s' => s.pos + 1 ≤ s'.pos)) :
-    Good F c lo lg ((m >>= fun v => getLineOffset >>= fun off => unknownIfdata fuel ctx isB (g v off :: acc)) e s) T := by
+    Good F c lo lg ((m >>= fun v => getLineOffset >>= fun off => unknownIfdata fuel ctx isB dp (g v off :: acc)) e s) T := by
   refine Good.bind' hl h ?_
   intro v s1 hpos hl1 hq
   refine Good.bind_lineOffset ?_
   intro off
-  refine ih.u lo lg ctx isB _ s1 ?_ ?_ hl1
+  refine ih.u lo lg ctx isB dp _ s1 ?_ ?_ hl1
   · intro hpb; have := hp hpb; have := hpos hpb; omega
   · intro hpb hF; have := hp hpb; have := hpos hpb; have := hf hpb hF; omega
 
@@ -664,11 +664,11 @@ theorem adv_back (s : PState) (t : PTok) : ({ adv s t with pos := (adv s t).pos 
 
 /-- the cascade for a Number token: i32, i64, u64, f64 -/
 theorem u_number (c : Cfg e) {fuel : Nat} (ih : AllU F c fuel) {lo : Nat} {lg : List Diag}
-    {ctx : Ctx} {isB : Bool} {acc : List Gen} {s : PState} {t : PTok}
+    {ctx : Ctx} {isB : Bool} {dp : Nat} {acc : List Gen} {s : PState} {t : PTok}
     (ht : e.toks[s.pos]? = some t) (h5 : t.ty = 5)
     (hp : c.PB → lo ≤ s.pos ∧ s.pos ≤ e.toks.size) (hf : c.PB → F → 3 * (e.toks.size - s.pos) + 3 ≤ fuel + 1)
     (hl : c.L lg s.log) (K : Except Diag (Int × Bool) → PM Gen)
-    (w : Nat) (hok : ∀ v hex, K (.ok (v, hex)) = (getLineOffset >>= fun off => unknownIfdata fuel ctx isB (.int w off v hex :: acc)))
+    (w : Nat) (hok : ∀ v hex, K (.ok (v, hex)) = (getLineOffset >>= fun off => unknownIfdata fuel ctx isB dp (.int w off v hex :: acc)))
     (herr : ∀ d, Good F c lo lg (K (.error d) e (adv s t)) T) :
     Good F c lo lg ((attempt (getInteger ctx w) >>= K) e s) T := by
   have hlt := lt_of_getElem?_some ht
@@ -683,17 +683,19 @@ theorem u_number (c : Cfg e) {fuel : Nat} (ih : AllU F c fuel) {lo : Nat} {lg : 
     rw [hok]
     refine Good.bind_lineOffset ?_
     intro off
-    refine ih.u lo lg ctx isB _ _ ?_ ?_ hl
+    refine ih.u lo lg ctx isB dp _ _ ?_ ?_ hl
     · intro hpb; have := hp hpb; show lo ≤ s.pos + 1 ∧ s.pos + 1 ≤ _; omega
     · intro hpb hF; have := hf hpb hF; show 3 * (_ - (s.pos + 1)) + 3 ≤ fuel; omega
 
 theorem u_step (c : Cfg e) (hni : c.PB → F → NoInc e) {fuel : Nat} (ih : AllU F c fuel) (lo : Nat) (lg : List Diag) (ctx : Ctx)
-    (isB : Bool) (acc : List Gen) (s : PState)
+    (isB : Bool) (dp : Nat) (acc : List Gen) (s : PState)
     (hp : c.PB → lo ≤ s.pos ∧ s.pos ≤ e.toks.size) (hf : c.PB → F → 3 * (e.toks.size - s.pos) + 3 ≤ fuel + 1)
     (hl : c.L lg s.log) :
-    Good F c lo lg (unknownIfdata (fuel + 1) ctx isB acc e s) T := by
+    Good F c lo lg (unknownIfdata (fuel + 1) ctx isB dp acc e s) T := by
   rw [unknownIfdata.eq_def]
   dsimp only
+  split
+  · exact Good.fail (fun hpb => (hp hpb).2) hl
   simp only [peekToken_bind]
   cases ht : e.toks[s.pos]? with
   | none => exact Good.fail (fun hpb => (hp hpb).2) hl
@@ -731,10 +733,10 @@ theorem u_step (c : Cfg e) (hni : c.PB → F → NoInc e) {fuel : Nat} (ih : All
     by_cases h1 : t.ty = 1
     · rw [if_pos h1]
       split
-      · refine Good.bind' hl (ih.ts s.pos s.log ctx s (fun hpb => ⟨Nat.le_refl _, (hp hpb).2⟩)
+      · refine Good.bind' hl (ih.ts s.pos s.log ctx dp s (fun hpb => ⟨Nat.le_refl _, (hp hpb).2⟩)
           (fun hpb hF => by have := hf hpb hF; omega) (c.L_refl _)) ?_
         intro ts s1 hpos hl1 hq
-        refine ih.u lo lg ctx isB _ s1 ?_ ?_ hl1
+        refine ih.u lo lg ctx isB dp _ s1 ?_ ?_ hl1
         · intro hpb; have := hp hpb; have := hpos hpb; omega
         · intro hpb hF
           have := hp hpb; have := hpos hpb; have := hf hpb hF
@@ -751,13 +753,13 @@ theorem u_step (c : Cfg e) (hni : c.PB → F → NoInc e) {fuel : Nat} (ih : All
     rw [if_neg h2]
     by_cases h3 : t.ty = 3
     · rw [if_pos h3]
-      refine ih.u lo lg ctx isB acc s hp ?_ hl
+      refine ih.u lo lg ctx isB dp acc s hp ?_ hl
       intro hpb hF
       exact absurd h3 (hni hpb hF _ _ ht)
     rw [if_neg h3]
     refine Good.bind' hl (getToken_good c ctx s (fun hpb => (hp hpb).2)) ?_
     intro t1 s1 hpos hl1 hq
-    refine ih.u lo lg ctx isB acc s1 ?_ ?_ hl1
+    refine ih.u lo lg ctx isB dp acc s1 ?_ ?_ hl1
     · intro hpb; have := hp hpb; have := hpos hpb; omega
     · intro hpb hF; have := hp hpb; have := hpos hpb; have := hf hpb hF; have := hq.1; omega
 
@@ -829,10 +831,11 @@ theorem Good.bind_attempt_eq {α β} {c : Cfg e} {lo : Nat} {lg : List Diag} {m 
   | panic => rw [h] at h1; exact ⟨h1.1, fun _ _ h' => by cases h'⟩
   | fuel => rw [h] at h1; exact ⟨trivial, fun hpb hF _ => h1.2 hpb hF rfl⟩
 
-theorem ts_step (c : Cfg e) {fuel : Nat} (ih : AllU F c fuel) (lo : Nat) (lg : List Diag) (ctx : Ctx) (s : PState)
+theorem ts_step (c : Cfg e) {fuel : Nat} (ih : AllU F c fuel) (lo : Nat) (lg : List Diag) (ctx : Ctx) (dp : Nat)
+    (s : PState)
     (hp : c.PB → lo ≤ s.pos ∧ s.pos ≤ e.toks.size) (hf : c.PB → F → 3 * (e.toks.size - s.pos) + 2 ≤ fuel + 1)
     (hl : c.L lg s.log) :
-    Good F c lo lg (unknownTaggedstruct (fuel + 1) ctx e s)
+    Good F c lo lg (unknownTaggedstruct (fuel + 1) ctx dp e s)
       (fun _ s' => c.PB → ∀ t, e.toks[s'.pos]? = some t → t.ty ≠ 1) := by
   rw [unknownTaggedstruct.eq_def]
   dsimp only
@@ -840,7 +843,7 @@ theorem ts_step (c : Cfg e) {fuel : Nat} (ih : AllU F c fuel) (lo : Nat) (lg : L
   refine Good.bind' hl (skipComments_good c ctx s.pos s.log _ s (fun hpb => ⟨Nat.le_refl _, (hp hpb).2⟩)
     (fun _ => by omega) (c.L_refl _)) ?_
   intro _ s1 hpos1 hl1 _
-  refine Good.bind' hl1 (ih.l s1.pos s1.log ctx [] s1 (fun hpb => ⟨Nat.le_refl _, (hpos1 hpb).2⟩)
+  refine Good.bind' hl1 (ih.l s1.pos s1.log ctx dp [] s1 (fun hpb => ⟨Nat.le_refl _, (hpos1 hpb).2⟩)
     (fun hpb hF => by have := hpos1 hpb; have := hf hpb hF; omega) (c.L_refl _)) ?_
   intro items s2 hpos2 hl2 _
   have hp2 : c.PB → lo ≤ s2.pos ∧ s2.pos ≤ e.toks.size := by
@@ -858,11 +861,11 @@ theorem ts_step (c : Cfg e) {fuel : Nat} (ih : AllU F c fuel) (lo : Nat) (lg : L
       refine Good.pure hp2 hl2 ?_
       intro _ t' h; rw [ht] at h; cases h; exact hne
 
-theorem l_step (c : Cfg e) {fuel : Nat} (ih : AllU F c fuel) (lo : Nat) (lg : List Diag) (ctx : Ctx)
+theorem l_step (c : Cfg e) {fuel : Nat} (ih : AllU F c fuel) (lo : Nat) (lg : List Diag) (ctx : Ctx) (dp : Nat)
     (acc : List (TItem Gen)) (s : PState)
     (hp : c.PB → lo ≤ s.pos ∧ s.pos ≤ e.toks.size) (hf : c.PB → F → 3 * (e.toks.size - s.pos) + 1 ≤ fuel + 1)
     (hl : c.L lg s.log) :
-    Good F c lo lg (unknownTsLoop (fuel + 1) ctx acc e s) T := by
+    Good F c lo lg (unknownTsLoop (fuel + 1) ctx dp acc e s) T := by
   rw [unknownTsLoop.eq_def]
   dsimp only
   refine Good.bind_attempt_eq hl (getNextTagOrComment_good c ctx s (fun hpb => (hp hpb).2)) ?_ ?_
@@ -872,7 +875,7 @@ theorem l_step (c : Cfg e) {fuel : Nat} (ih : AllU F c fuel) (lo : Nat) (lg : Li
     cases bc with
     | comment tok off =>
       have hq1' : s.pos + 1 ≤ s1.pos := hq1
-      refine ih.l lo lg ctx acc s1 hp1 ?_ hl1
+      refine ih.l lo lg ctx dp acc s1 hp1 ?_ hl1
       intro hpb hF; have := hp hpb; have := hp1 hpb; have := hf hpb hF; omega
     | none => exact Good.pure hp1 hl1 trivial
     | block tok isBlock startOff =>
@@ -881,13 +884,13 @@ theorem l_step (c : Cfg e) {fuel : Nat} (ih : AllU F c fuel) (lo : Nat) (lg : Li
       have hq1' : s.pos + 1 ≤ s1.pos := by
         have : s.pos + (if isBlock = true then 2 else 1) ≤ s1.pos := hq1
         split at this <;> omega
-      refine Good.bind' hl1 (ih.u s1.pos s1.log _ isBlock [] { s1 with seqId := s1.seqId + 1 }
+      refine Good.bind' hl1 (ih.u s1.pos s1.log _ isBlock (dp + 1) [] { s1 with seqId := s1.seqId + 1 }
         (fun hpb => ⟨Nat.le_refl _, (hp1 hpb).2⟩)
         (fun hpb hF => by have := hp hpb; have := hp1 hpb; have := hf hpb hF; show 3 * (_ - s1.pos) + 3 ≤ fuel; omega) (c.L_refl _)) ?_
       intro result s2 hpos2 hl2 _
       refine Good.bind' hl2 (endOfTagged_good c _ _ _ s2 (fun hpb => (hpos2 hpb).2)) ?_
       intro endOff s3 hpos3 hl3 _
-      refine ih.l lo lg ctx _ s3 ?_ ?_ hl3
+      refine ih.l lo lg ctx dp _ s3 ?_ ?_ hl3
       · intro hpb; have := hp1 hpb; have h2 := hpos2 hpb; have := hpos3 hpb; dsimp only at h2; omega
       · intro hpb hF; have := hp hpb; have := hp1 hpb; have h2 := hpos2 hpb; have := hpos3 hpb; have := hf hpb hF
         dsimp only at h2; omega
@@ -900,17 +903,17 @@ theorem allU (c : Cfg e) (hni : c.PB → F → NoInc e) : ∀ fuel, AllU F c fue
   | 0 => allU_zero c
   | fuel + 1 =>
     have ih := allU c hni fuel
-    ⟨fun lo lg ctx isB acc s hp hf hl => u_step c hni ih lo lg ctx isB acc s hp hf hl,
-     fun lo lg ctx s hp hf hl => ts_step c ih lo lg ctx s hp hf hl,
-     fun lo lg ctx acc s hp hf hl => l_step c ih lo lg ctx acc s hp hf hl⟩
+    ⟨fun lo lg ctx isB dp acc s hp hf hl => u_step c hni ih lo lg ctx isB dp acc s hp hf hl,
+     fun lo lg ctx dp s hp hf hl => ts_step c ih lo lg ctx dp s hp hf hl,
+     fun lo lg ctx dp acc s hp hf hl => l_step c ih lo lg ctx dp acc s hp hf hl⟩
 
 theorem unknownStart_good (c : Cfg e) (hni : c.PB → F → NoInc e) (ctx : Ctx) (s : PState) (hp : c.Pre s) :
     Good F c s.pos s.log (unknownStart ctx e s) T := by
   unfold unknownStart
   simp only [getEnv_bind, peekToken_bind]
   have hU := allU c hni (unknownFuel e.toks.size)
-  have hdirect : Good F c s.pos s.log (unknownIfdata (unknownFuel e.toks.size) ctx true [] e s) T :=
-    hU.u s.pos s.log ctx true [] s (fun hpb => ⟨Nat.le_refl _, hp hpb⟩) (fun _ _ => by unfold unknownFuel; omega) (c.L_refl _)
+  have hdirect : Good F c s.pos s.log (unknownIfdata (unknownFuel e.toks.size) ctx true 0 [] e s) T :=
+    hU.u s.pos s.log ctx true 0 [] s (fun hpb => ⟨Nat.le_refl _, hp hpb⟩) (fun _ _ => by unfold unknownFuel; omega) (c.L_refl _)
   cases ht : e.toks[s.pos]? with
   | none => exact hdirect
   | some t =>
@@ -921,7 +924,7 @@ theorem unknownStart_good (c : Cfg e) (hni : c.PB → F → NoInc e) (ctx : Ctx)
       refine Good.bind_lineOffset ?_
       intro startOff
       simp only [getNextId_bind]
-      refine Good.bind' hl1 (hU.u s1.pos s1.log _ true [] { s1 with seqId := s1.seqId + 1 }
+      refine Good.bind' hl1 (hU.u s1.pos s1.log _ true 0 [] { s1 with seqId := s1.seqId + 1 }
         (fun hpb => ⟨Nat.le_refl _, (hpos1 hpb).2⟩) (fun _ _ => by unfold unknownFuel; show _ ≤ _; omega) (c.L_refl _)) ?_
       intro result s2 hpos2 hl2 _
       simp only [undo_bind]
